@@ -103,6 +103,10 @@ func find(name string) *codec {
 // it again must not disturb bytes returned by an earlier ToBytes call.
 var lastMsg = map[string]any{}
 
+// mustAccept: inputs produced by an independent encoder that are well-formed by construction;
+// the parser has to accept them.
+var mustAccept = map[string]bool{}
+
 func judge(c *codec, in []byte) (sig, msg string, accepted bool) {
 	defer func() {
 		if r := recover(); r != nil {
@@ -126,6 +130,9 @@ func judge(c *codec, in []byte) (sig, msg string, accepted bool) {
 	}()
 	m, err := c.dec(append([]byte(nil), in...))
 	if err != nil {
+		if mustAccept[string(in)] {
+			return "well-formed-message-rejected:" + c.name, fmt.Sprintf("%s.FromBytes rejects the well-formed %d-byte message %x: %v", c.name, len(in), in, err), false
+		}
 		return "", "", false
 	}
 	if c.fixed > 0 && len(in) != c.fixed {
@@ -218,8 +225,40 @@ func inputs(c *codec, tier string, yield func([]byte) bool) {
 					u = u[:n-2] + "+r"
 				}
 				for _, par := range []byte{0, 1} {
-					if !emit(mrun.WinboxAuth(u, par)) {
+					b := mrun.WinboxAuth(u, par)
+					base := n // length of the user name proper (a name of exactly 2 characters is not a valid name)
+					if romon {
+						base = n - 2
+					}
+					if base >= 3 && n <= 200 {
+						mustAccept[string(b)] = true
+					}
+					if !emit(b) {
 						return
+					}
+				}
+			}
+		}
+	}
+	// ... and public keys that contain the delimiter value at every position (and twice)
+	if c.name == "winbox.MessageAuth" {
+		for _, u := range []string{"toms", "andris+r", strings.Repeat("k", 221)} {
+			for z := 0; z < 32; z++ {
+				for _, z2 := range []int{-1, 31 - z} {
+					key := make([]byte, 32)
+					for i := range key {
+						key[i] = byte(0x11 + i)
+					}
+					key[z] = 0
+					if z2 >= 0 {
+						key[z2] = 0
+					}
+					for _, par := range []byte{0, 1} {
+						b := mrun.WinboxAuthKey(u, key, par)
+						mustAccept[string(b)] = true
+						if !emit(b) {
+							return
+						}
 					}
 				}
 			}
@@ -254,7 +293,7 @@ func main() {
 	runner.Main(&runner.Harness{
 		ID:          "C18",
 		Level:       "model_checking",
-		Rule:        "for each exported wire-message type (OpenVPN header/plain/auth/crypt/crypt2/wrapped key, WireGuard initiation/transport, Winbox auth, RDP TPKT/X.224/token/negotiation request/correlation info): every length from 0 to size+3 (variable messages: min..min+40, thorough +300; Winbox up to 520) in three fill patterns, well-formed Winbox messages from an independent encoder for every user-name length 1..520 (plain and RoMON, both parities), every byte-slice literal of the module's tests with all prefixes, extensions and single-position substitutions, and the counter pattern at the size bounds with all single-position substitutions; oracle: accepted => ToBytes(FromBytes(b)) == b and FromBytes(ToBytes(m)) == m, and the returned bytes are not disturbed by serialising another message afterwards; fixed-size messages reject every other length; no panic; states = distinct (type, input) pairs",
+		Rule:        "for each exported wire-message type (OpenVPN header/plain/auth/crypt/crypt2/wrapped key, WireGuard initiation/transport, Winbox auth, RDP TPKT/X.224/token/negotiation request/correlation info): every length from 0 to size+3 (variable messages: min..min+40, thorough +300; Winbox up to 520) in three fill patterns, well-formed Winbox messages from an independent encoder for every user-name length 1..520 (plain and RoMON, both parities), every byte-slice literal of the module's tests with all prefixes, extensions and single-position substitutions, and the counter pattern at the size bounds with all single-position substitutions; oracle: accepted => ToBytes(FromBytes(b)) == b and FromBytes(ToBytes(m)) == m, the returned bytes are not disturbed by serialising another message afterwards, and messages from the independent Winbox encoder (user names of 3..200 bytes; public keys containing the delimiter value) are accepted; fixed-size messages reject every other length; no panic; states = distinct (type, input) pairs",
 		Assumptions: []string{"equality of messages is structural (nil and empty slices equal)"},
 		Scenarios: func(tier string, yield func(any) bool) {
 			for _, c := range codecs {
@@ -297,6 +336,9 @@ func main() {
 			sc := scAny.(*Scn)
 			in, _ := hex.DecodeString(sc.Input)
 			delete(lastMsg, sc.Codec)
+			if len(mustAccept) == 0 { // a fresh process: enumerate the inputs once to know the well-formed ones
+				inputs(find(sc.Codec), "thorough", func([]byte) bool { return true })
+			}
 			sig, msg, _ := judge(find(sc.Codec), in)
 			if sig == "" {
 				return nil
